@@ -298,6 +298,7 @@ def run(P, R, tier):
     filenames_rule(P, R)
     from . import c07 as C07
     C07.fresh_rule(P, R, "C06.fresh")
+    ptrorder_rule(P, R)
 
     # ------------------------------------------------------------------ C06.nondet
     rn = R.rule("C06.nondet", "nondeterminism sources (clock, random, env, pid) only at the status/elapsed-time sites", minimum=3)
@@ -474,3 +475,74 @@ def filenames_rule(P, R):
                             "name from the input: two instances in one directory can end up writing the same file" % (hit[0], T.text(rhs)[:80]), file=f["file"], line=x[1], function=f["q"])
     if n < 10:
         R.anchor_missing("C06.filenames", "only %d writes of file-name members found" % n)
+
+
+PTRORDER_SAME_BUFFER = {
+    # function -> reason: both pointers point into the same character buffer, the comparison is a position test
+    "PBasic::my_memmove": "dd < ss: overlap test between two positions of one buffer",
+    "PBasic::strrtrim": "s2 > l_s: scan position against the start of the same string",
+}
+
+
+def _ptr_type(n):
+    n = T.strip_casts(n)
+    if not T.is_node(n):
+        return ""
+    if n[0] in ("Member", "Ref"):
+        return str(n[4])
+    if n[0] == "Call" and isinstance(n[2], dict):
+        return str(n[2].get("ret", ""))
+    if n[0] == "Un" and n[2] == "&":
+        return "addr *"
+    if n[0] == "Bin" and n[2] in ("+", "-"):
+        return _ptr_type(n[3])
+    if n[0] == "Index":
+        return ""
+    return ""
+
+
+def ptrorder_rule(P, R):
+    """Allocation addresses differ between instances, processes and repetitions.  A result may depend on them only through
+    identity (==, !=).  An *ordering* of two pointers (<, >, <=, >=), or - inside a sort comparator - their difference or a
+    cast of a pointer to an integer, makes listing order or arithmetic depend on where malloc placed things.  Comparators
+    are the functions whose address is passed to qsort / std::sort."""
+    RULE = "C06.ptrorder"
+    R.rule(RULE, "no ordering of pointers by address outside same-buffer position tests; sort comparators never order by address", minimum=12)
+    comparators = {}
+    for g in P.functions.values():
+        for c in T.calls(g["body"]):
+            if T.callee_name(c) in ("qsort", "sort", "stable_sort"):
+                for a in c[4]:
+                    a = T.strip_casts(a)
+                    if T.is_node(a) and a[0] == "Ref" and a[2] == "func":
+                        comparators[a[3]] = g["q"]
+    if len(comparators) < 10:
+        R.anchor_missing(RULE, "only %d sort comparators found" % len(comparators))
+        return
+    nrel = 0
+    for g in sorted(P.functions.values(), key=lambda f: f["q"]):
+        is_cmp = g["q"] in comparators
+        bad = []
+        for x in T.walk(g["body"]):
+            if x[0] == "Bin" and x[2] in ("<", ">", "<=", ">=") or (is_cmp and x[0] == "Bin" and x[2] == "-"):
+                a, b = _ptr_type(x[3]), _ptr_type(x[4])
+                if a.rstrip().endswith("*") and b.rstrip().endswith("*"):
+                    nrel += 1
+                    if g["q"] in PTRORDER_SAME_BUFFER and not is_cmp:
+                        R.ok(RULE, "%s:%s" % (g["q"], T.text(x)[:30]), PTRORDER_SAME_BUFFER[g["q"]])
+                    else:
+                        bad.append((x[1], "orders two pointers by address: `%s`" % T.text(x)[:80]))
+            if is_cmp and x[0] == "Cast" and len(x) > 3:
+                tt = str(x[2])
+                if tt in ("size_t", "unsigned long", "long", "intptr_t", "uintptr_t", "int") and _ptr_type(x[3]).rstrip().endswith("*"):
+                    bad.append((x[1], "casts a pointer to an integer in a comparator"))
+        if is_cmp:
+            if bad:
+                for line, why in bad:
+                    R.violation(RULE, "cmp:" + g["q"].split("::")[-1], "sort comparator (passed to the sort in %s) %s: the order of the sorted list depends on allocation addresses, which differ between instances and processes" % (comparators[g["q"]], why),
+                                file=g["file"], line=line, function=g["q"])
+            else:
+                R.ok(RULE, "cmp:" + g["q"].split("::")[-1], "orders by values / strings only")
+        else:
+            for line, why in bad:
+                R.violation(RULE, g["q"] + ":" + str(line), why + " (not a listed same-buffer position test)", file=g["file"], line=line, function=g["q"])
